@@ -202,12 +202,17 @@ fn main() {
                 tokio::time::sleep(std::time::Duration::from_millis(150)).await;
                 let idle_period = w.sched.drain_events();
                 let st = w.pool.status();
-                Ok::<_, &'static str>((after_build, used, idle_period, st.size, st.available))
+                // dropping the last handle of a pool with idle objects destroys them, but the
+                // manager and the hooks are not called: that is no pool operation
+                let sched = w.sched.clone();
+                drop(w);
+                let at_drop: Vec<String> = sched.drain_events().into_iter().filter(|e| !e.starts_with("destroy(")).collect();
+                Ok::<_, &'static str>((after_build, used, idle_period, st.size, st.available, at_drop))
             });
             match res {
-                Ok((a, u, i, size, avail)) => {
-                    writeln!(out, "background after_build={} during_use={} idle_period={} size={} available={}", a.len(), u.len(), i.len(), size, avail).unwrap();
-                    for e in a.iter().chain(i.iter()) {
+                Ok((a, u, i, size, avail, d)) => {
+                    writeln!(out, "background after_build={} during_use={} idle_period={} at_drop={} size={} available={}", a.len(), u.len(), i.len(), d.len(), size, avail).unwrap();
+                    for e in a.iter().chain(i.iter()).chain(d.iter()) {
                         writeln!(out, "unexpected {}", e).unwrap();
                     }
                 }
